@@ -1,6 +1,8 @@
 import MaestroVerif.Model.Dag
 import MaestroVerif.Model.Exec
 import MaestroVerif.Model.Sched
+import MaestroVerif.Model.Csv
+import MaestroVerif.Model.Lock
 open MaestroVerif
 
 /-! Line-protocol driver: one operation per input line, one canonical answer line per operation. -/
@@ -217,6 +219,32 @@ def step (toks : List String) : String :=
   | _ => "bad-op"
 end SchedDrv
 
+
+namespace CsvDrv
+open Csv
+
+def fmtTable (t : Table) : String :=
+  ";".intercalate (t.map fun e => s!"{hex e.1}=" ++ ",".intercalate (e.2.map hex))
+
+/-- rows travel as `;`-separated rows of `,`-separated hex fields -/
+def parseRows (s : String) : List (List (List Char)) :=
+  if s.isEmpty then [] else (s.splitOn ";").map hexList
+
+def step (toks : List String) : String :=
+  match toks with
+  | ["csv.read", content] =>
+    match readCsv (unhex content) with
+    | .ok t => "ok " ++ fmtTable t
+    | .error .keyError => "RAISE:KeyError"
+    | .error .indexError => "RAISE:IndexError"
+  | "csv.write" :: rest =>
+    hex (writeCsv (hexList (kvOf rest "header")) (parseRows (kvOf rest "rows")))
+  | "lock.trace" :: who :: ops =>
+    let want := if who == "writer" then Lock.writerTrace else Lock.readerTrace
+    if ops == want then "accept" else s!"reject expected={" ".intercalate want}"
+  | _ => "bad-op"
+end CsvDrv
+
 structure DrvState where
   dag : Dag.Dag := Dag.empty
   exec : Option ExecDrv.St := none
@@ -233,6 +261,7 @@ def stepLine (st : DrvState) (line : String) : DrvState × String :=
       let r := ExecDrv.step st.exec toks
       ({ st with exec := r.1 }, r.2)
     else if t.startsWith "sched." then (st, SchedDrv.step toks)
+    else if t.startsWith "csv." || t.startsWith "lock." then (st, CsvDrv.step toks)
     else (st, "bad-op")
 
 partial def loop (h : IO.FS.Stream) (out : IO.FS.Stream) (st : DrvState) : IO Unit := do
